@@ -492,11 +492,14 @@ func (c *Ctx) bedRec(n int) *bed.BED {
 		b.BlockCount = c.rng.Intn(4)
 		b.BlockSizes = make([]int, c.rng.Intn(3))
 	case n == 10, n == 11:
-		b.BlockCount = 0
-		if n == 10 {
-			b.BlockSizes = make([]int, c.rng.Intn(3)) // not written
+		// block lists consistent with the block count; the lists beyond the first N fields are not written
+		b.BlockCount = cnt
+		b.BlockSizes = make([]int, cnt)
+		b.BlockStarts = make([]int, cnt)
+		for i := 0; i < cnt; i++ {
+			b.BlockSizes[i] = c.extremeInt()
+			b.BlockStarts[i] = c.extremeInt()
 		}
-		b.BlockStarts = make([]int, c.rng.Intn(3)) // not written
 	default:
 		b.BlockCount = cnt
 		b.BlockSizes = make([]int, cnt)
